@@ -463,6 +463,22 @@ func runRBCAttack(r *prng, id int) *jScenario {
 		}
 	}
 	steps := 4 + r.intn(14)
+	if r.chance(1, 4) {
+		// crossed equivocation with the honest acknowledgements still in flight: A to the first honest party and B to the
+		// second, then the other way round, before any acknowledgement is delivered
+		a, b := mkPayload(r, round, true), mkPayload(r, round, true)
+		pay[honest[0]], pay[honest[1]] = a, b
+		w.deliver(flight{to: honest[0], from: sender, data: wirePayload(a), kind: "bbcast"})
+		w.deliver(flight{to: honest[1], from: sender, data: wirePayload(b), kind: "bbcast"})
+		if r.chance(1, 2) {
+			w.deliver(flight{to: honest[0], from: sender, data: wirePayload(b), kind: "bbcast"})
+			w.deliver(flight{to: honest[1], from: sender, data: wirePayload(a), kind: "bbcast"})
+		} else {
+			w.deliver(flight{to: honest[1], from: sender, data: wirePayload(a), kind: "bbcast"})
+			w.deliver(flight{to: honest[0], from: sender, data: wirePayload(b), kind: "bbcast"})
+		}
+		steps = r.intn(4)
+	}
 	for i := 0; i < steps; i++ {
 		if len(w.pool) > 0 && r.chance(2, 5) {
 			j := r.intn(len(w.pool))
